@@ -19,12 +19,12 @@ EXPECTED_THEOREMS = {
     "C13": ["read_is_a_socket_read", "every_size_is_possible", "line_reader_oracle", "head_reader_oracle", "small_body_oracle", "chunked_zero_counterexample", "chunk_crlf_reader_counterexample", "body_reader_oracle_is_false", "body_reader_oracle_partial", "body_reader_oracle_nonchunked", "chunk_crlf_counterexample", "runO_eq_run_is_false", "segmentation_independent_is_false", "runO_eq_run_masked", "runO_eq_run_partial", "runO_eq_run_partial_simple", "segmentation_independent_masked", "segmentation_independent_partial"],
     "C01": ["seq_order", "no_overtaking", "dropped_prefix_closed", "sock_is_prefix", "flush_delivers", "first_alive_has_turn", "par_writers_are_seq", "concurrent_handlers_prefix", "concurrent_handlers_same_bytes", "concurrent_terminal_is_finished", "concurrent_stuck_only_when_open"],
     "C06": ["one_final_response", "dropped_gets_500", "nothing_after_consumption", "interim_only_first", "finish_status_single", "drop_releases_successor"],
-    "C08": ["waiting_count_exact", "queued_tasks_are_claimed", "every_queued_task_can_start", "dispatch_never_blocks", "task_conservation", "task_started_at_most_once"],
+    "C08": ["waiting_count_exact", "queued_tasks_are_claimed", "every_queued_task_can_start", "dispatch_never_blocks", "task_conservation", "task_started_at_most_once", "whole_pool_reachable", "whole_connection_never_waits_for_another"],
     "C11": ["released_at_parse_iff", "small_body_limit", "buffered_is_small", "ahead_step_small", "ahead_blocks_only_on_streamed_body", "ahead_heads_prefix_of_run", "small_body_never_owns_stream", "streamed_body_owns_stream", "par_parse_enabled", "par_stream_free_when_owners_gone"],
     "C14": ["declared_length_allocation_bounded", "accepted_content_length_fits", "accepted_chunk_size_fits", "discard_read_size_bounded", "limited_read_request_bounded", "te_comparison_consistent", "nan_is_rejected", "run_always_ends_regularly"],
     "C15": ["respond_swallows_client_errors", "incomplete_head_not_delivered", "no_terminator_no_head", "incomplete_small_body_not_delivered", "head_in_prefix_is_head", "body_read_never_blocks_when_closed", "read_up_to_never_blocks_when_closed", "drain_terminates_when_closed", "handle_never_blocks_when_closed", "prefix_delivery"],
     "C20": ["min_threads_value", "idle_period_value", "active_count_exact", "untimed_waiters_bounded", "idle_pool_at_baseline", "timed_out_worker_exits", "retire_no_task_lost", "drop_wakes_everybody", "accept_loop_stops", "handed_out_still_answerable", "no_accept_after_exit"],
-    "C07": ["queue_exactly_once", "log_values_are_taken", "no_lost_wakeup", "quiescent_blocked_implies_empty", "look_enabled"],
+    "C07": ["queue_exactly_once", "log_values_are_taken", "no_lost_wakeup", "quiescent_blocked_implies_empty", "look_enabled", "whole_queue_reachable", "whole_pushed_are_the_connections_requests", "whole_exactly_once", "whole_pushed_le_sent"],
     "C17": ["token_conservation", "tokens_preserve_requests", "try_recv_never_blocks", "recv_empty_only_by_token", "recv_timeout_bounds", "unblock_released_before_time_passes"],
     "C02": ["head_roundtrip", "method_table", "delivered_is_parsed", "head_roundtrip_any_segmentation"],
     "C03": ["limited_read_exact", "buffered_read_exact", "buffered_is_next_n", "upgrade_read_exact", "empty_read", "chunked_read_exact", "te_precedence", "declared_length", "no_framing_no_body"],
@@ -181,7 +181,7 @@ PROPS = {
                 "srvq: the same programs against the whole Server of the generated copy (every producer a client connection on the in-memory network sending /r<v>, receivers calling "
                 "recv / try_recv / recv_timeout, unblock through Server::unblock; bursts of 5..8 connections, 5..12 s of virtual silence, then new connections), replayed on the same LTS "
                 "with anonymous pushes matched one-to-one against the delivered requests",
-        "required_tags": ["ptimer:0", "ptimer:200", "timedtook:1", "timeoutexp:1", "blocked:1", "left:1", "unblock:1", "srv:1", "burst:1"],
+        "required_tags": ["ptimer:0", "ptimer:200", "timedtook:1", "timeoutexp:1", "blocked:1", "left:1", "unblock:1", "srv:1", "burst:1", "whole:1"],
         "partial": ["theorem: exactly-once/FIFO and no-lost-wake-up invariants of the queue LTS for all schedules",
                     "that a connection pushes its requests in parse order is the connection-loop model (C12.trace_extends_state); real-thread scheduling is sampled by C06/C11's pristine runs"],
         "assumptions": CTL_ASSUMPTIONS,
